@@ -29,7 +29,7 @@ def run(ctx):
     ps = GROW + [SC.gen_program(ctx.rng, VOC, keys=6).replace(";trav,size,check", ";size") for _ in range(n)]
     allv = CUCKOO + STRIPED
     jobs = make_jobs(ctx, "set_lock", allv, ps) + make_jobs(ctx, "set_lock", allv, DEEP, strat=deep)
-    deep2 = [("dfs", 5000 if q else 400000, 2)]
+    deep2 = [("dfs", 3000 if q else 400000, 2)]
     jobs += make_jobs(ctx, "set_lock", STRIPED_LF1, GROW_LF1) + make_jobs(ctx, "set_lock", STRIPED_SB2, GROW_SB2)
     jobs += make_jobs(ctx, "set_lock", STRIPED_LF1, DEEP_LF1, strat=deep2) + make_jobs(ctx, "set_lock", STRIPED_SB2, DEEP_SB2, strat=deep2)
     vlib.run_jobs(ctx, jobs)
